@@ -19,7 +19,7 @@ def attribute(run, line, verdict):
     if line:
         ev = evs[line - 1]
         k = ev.get("e")
-        if k == "Ctx" or (k == "Start" and ev.get("sp16", 0) != 0):
+        if k in ("Ctx", "Overlap") or (k == "Start" and ev.get("sp16", 0) != 0):
             return "C02"          # registers / FP control state / stack alignment
         if k in ("MigReq", "MigRet", "MigCb", "MigCount") or (k == "Back" and "pool" in ev):
             return "C13"
@@ -59,7 +59,7 @@ def attribute(run, line, verdict):
         return "C11+C02" if verdict.startswith("crash") else "C11"
     if scn == "replace":
         return "C01+C06+C11"      # the caller or another unit is lost / the stream cannot be joined after set_main_sched
-    if scn == "ryt":
+    if scn in ("ryt", "ytrace"):
         return "C02+C11"          # resume_yield_to with the yielder's pool served by other streams
     if scn == "xjoin":
         return "C06"
@@ -158,7 +158,7 @@ def run_exec(pid, tier, seed, emphasis, scns=("exec",), pre=None):
             return False            # shared pools: blocked units are not counted by the stop test (documented)
         if scn == "cancelmix" and nes < 1:
             return False
-        if scn == "ryt" and (cfg != 4 or nes < 2):
+        if scn in ("ryt", "ytrace") and (cfg != 4 or nes < 2):
             return False
         if scn == "replace" and (cfg or nes):
             return False
@@ -169,7 +169,7 @@ def run_exec(pid, tier, seed, emphasis, scns=("exec",), pre=None):
             for nes in (0, 1, 2):
                 if not applicable(scn, cfg, nes):
                     continue
-                mult = 6 if scn in ("ryt", "replace") else 1
+                mult = 6 if scn in ("ryt", "replace", "ytrace") else 1
                 if scn == "xjoin" and cfg in (2, 5):
                     mult = 8        # the waiting scheduler leaves its loop on other paths than the others (defect S4)
                 for off in range(0, n * mult, per):
